@@ -162,6 +162,8 @@ def run_case(case):
     for p in paths:
         out = hexlib.fmt_traverse(lambda: trie.traverse(p))
         res.emit("hx.trav 0 %s" % nibstr(p), out)
+        # raw level: annotate_node / _make_simulated_node / _traverse_from over raw nodes from the database
+        res.emit("hx.travd %s %s" % (hx(trie.root_hash), nibstr(p)), out)
         want = describe(J, p)
         if out != want:
             res.fail("traverse-wrong", "traverse(%s): got %s ; the contents %r require %s" % (nibstr(p), out, sorted(model.items()), want))
